@@ -53,6 +53,7 @@ type out struct {
 	side    int // 0: sent before the counter crossed a boundary, 1: after
 	retired bool
 	unreach bool // sent to the node whose Node ID cannot be reached: no datagram arrives anywhere
+	sess    int  // the session the report was for
 }
 
 const unreachID = "203.0.113.9"
@@ -74,6 +75,7 @@ type stats struct {
 	peerReqs                     int
 	peerReqExpired               bool
 	unreach                      int // requests whose first transmission failed locally
+	deletions                    int // sessions deleted by their owner while requests for other sessions were outstanding or followed
 }
 
 func run(c Case) (v *vcore.Violation, stt stats) {
@@ -142,12 +144,35 @@ func run(c Case) (v *vcore.Violation, stt stats) {
 	}
 	crossed := false
 	sentCount := uint64(0)
+	gone := map[int]bool{} // sessions deleted by their owners
 
 	for i, ev := range c.Evs {
 		switch ev.Kind {
+		case "del":
+			// a peer deletes a session of its own that has nothing outstanding; the requests outstanding for other sessions -
+			// also for sessions of other peers that chose the same CP SEID - go on as before
+			sess := ev.Sess % 3
+			busy := gone[sess]
+			for _, x := range live() {
+				if x.sess == sess {
+					busy = true
+				}
+			}
+			if busy {
+				continue
+			}
+			o := r.Step(stack.Op{Kind: "del", Peer: r.Sess[sess].Node, Sess: sess})
+			if o.Dead != nil {
+				return vcore.Violatef(o.Dead.Key, "event %d: UPF fatal exit: %.400s", i, o.Dead.Msg), stt
+			}
+			gone[sess] = true
+			stt.deletions++
 		case "report", "dldr":
-			stt.reports++
 			sess := ev.Sess % len(r.Sess)
+			if gone[sess] {
+				continue
+			}
+			stt.reports++
 			op := stack.Op{Kind: "report", Sess: sess, URRs: []uint32{1}, Trig: 2}
 			if ev.Kind == "dldr" {
 				op = stack.Op{Kind: "report", Sess: sess, DLDR: true, PDR: 1, Action: 0x0c, Payload: []byte{byte(i)}}
@@ -199,7 +224,7 @@ func run(c Case) (v *vcore.Violation, stt stats) {
 					}
 				}
 				sentCount++
-				outstanding = append(outstanding, &out{sock: 2, unreach: true, seq: seq, b: fresh[0].Bytes})
+				outstanding = append(outstanding, &out{sock: 2, unreach: true, seq: seq, b: fresh[0].Bytes, sess: sess})
 				stt.unreach++
 				continue
 			}
@@ -222,7 +247,7 @@ func run(c Case) (v *vcore.Violation, stt stats) {
 				side = 1
 			}
 			sentCount++
-			n := &out{sock: srr.Sock, seq: srr.Seq, b: srr.B, side: side}
+			n := &out{sock: srr.Sock, seq: srr.Seq, b: srr.B, side: side, sess: sess}
 			if side == 1 {
 				crossed = true
 				for _, x := range live() {
@@ -485,6 +510,9 @@ func run(c Case) (v *vcore.Violation, stt stats) {
 }
 
 func account(c Case, s stats) {
+	if s.deletions > 0 {
+		vcore.E.Class("session_deleted_by_its_owner_between_reports")
+	}
 	vcore.E.Eval()
 	vcore.E.Class(fmt.Sprintf("max_retrans_%d", c.MaxRetrans))
 	if s.crossWithBoth {
@@ -587,7 +615,7 @@ func TestC09(t *testing.T) {
 		}
 		n := rapid.IntRange(1, 25).Draw(rt, "n")
 		for i := 0; i < n; i++ {
-			k := rapid.SampledFrom([]string{"report", "report", "report", "dldr", "expire", "expire", "expire", "expire_unknown", "rsp", "rsp", "peerreq"}).Draw(rt, "kind")
+			k := rapid.SampledFrom([]string{"report", "report", "report", "dldr", "expire", "expire", "expire", "expire_unknown", "rsp", "rsp", "peerreq", "del"}).Draw(rt, "kind")
 			ev := Ev{Kind: k, Sess: rapid.SampledFrom([]int{0, 1, 2, 3, 3}).Draw(rt, "sess"), Which: rapid.IntRange(0, 7).Draw(rt, "which")}
 			if k == "peerreq" && rapid.Bool().Draw(rt, "expire") {
 				ev.Variant = "expire"
